@@ -187,8 +187,17 @@ class Transmission(WithObservers, LoggingTrait):
             and len(user_data) >= 5
         ):
             # print(f"udp/ipv4 compressed {user_data.hex()}")
-            udp_ip = UDPIPv4CompressedHeader.from_bits(bits=bytes_to_bits(user_data))
-            print(repr(udp_ip))
+            # diagnostic output only: user data too short for the extended headers it announces
+            # (or otherwise undecodable) must not break the tracking of the transmission
+            try:
+                udp_ip = UDPIPv4CompressedHeader.from_bits(
+                    bits=bytes_to_bits(user_data)
+                )
+                print(repr(udp_ip))
+            except Exception as e:
+                self.log_warning(
+                    f"cannot decode UDP/IPv4 compressed header from {user_data.hex()}: {e}"
+                )
 
         # print("\n" * 3)
 
